@@ -42,6 +42,8 @@ type raceInst struct {
 	inv   *cache.Invalidator
 	dump  []byte
 	close func()
+	// a context carrying a TTL that the client shares between goroutines (it only ever reads it)
+	sharedCtx context.Context
 }
 
 var raceKeys = [][]byte{[]byte("r0"), []byte("r1"), []byte("r2"), []byte("r3"), []byte("r4"), []byte("r5")}
@@ -142,6 +144,9 @@ func failoverRaceOps() []raceOp {
 				buf[j] = 'x'
 			}
 		}},
+		// one TTL-carrying context shared by all callers; keys r1/r3 start out expired (stale refresh path)
+		{"GetStaleSharedTTLCtx", true, func(in *raceInst, g, i int) { get(in, raceKeys[1+2*((g+i)%2)], in.sharedCtx) }},
+		{"GetNewKeySharedTTLCtx", true, func(in *raceInst, g, i int) { get(in, []byte(fmt.Sprintf("shared-%d-%d", g, i)), in.sharedCtx) }},
 		{"ExpireAllBackend", true, func(in *raceInst, g, i int) { in.be.ExpireAll(bg) }},
 		{"WalkBackend", false, func(in *raceInst, g, i int) {
 			_, _ = in.be.Walk(func(k []byte, v interface{}, exp time.Time) error { return nil })
@@ -170,6 +175,8 @@ func makeFailoverInst(variant int, syncRead bool) func() *raceInst {
 			}.Use)
 			in.fe = foPlain{f: f}
 		}
+
+		in.sharedCtx = cache.WithTTL(context.Background(), time.Hour, false)
 
 		beClose := in.close
 		in.close = func() {
